@@ -337,5 +337,37 @@ pub proof fn lemma_final_set(txs: Seq<TxH>, n: int, k: Seq<u8>)
     }
 }
 
+// ---- link to unit dumps: every key the callbacks ever hold is a 36-byte outpoint (precondition of the dump loop) ------
+pub open spec fn keys_wf(m: UMap) -> bool { forall|k: Seq<u8>| m.contains_key(k) ==> k.len() == 36 }
+pub proof fn lemma_key_len(txid: sha256d::Hash, index: u32)
+    ensures key_of(txid, index).len() == 36
+{ vstd::bytes::lemma_auto_spec_u32_to_from_le_bytes(); }
+pub proof fn lemma_keys_wf_tx(m: UMap, tx: Hashed<EvaluatedTx>, h: u64)
+    requires keys_wf(m),
+    ensures
+        //# C07:keys_stay_36_byte_outpoints
+        keys_wf(apply_tx(m, tx, h)),
+{
+    let m1 = remove_all(m, tx.value.inputs@, tx.value.inputs@.len() as int);
+    assert forall|k: Seq<u8>| m1.contains_key(k) implies k.len() == 36 by {
+        lemma_remove_all_dom(m, tx.value.inputs@, tx.value.inputs@.len() as int, k);
+    }
+    lemma_ins_all_keys(m1, tx.hash, h, tx.value.outputs@, tx.value.outputs@.len() as int);
+}
+pub proof fn lemma_ins_all_keys(m: UMap, txid: sha256d::Hash, h: u64, outs: Seq<EvaluatedTxOut>, n: int)
+    requires keys_wf(m), 0 <= n <= outs.len(),
+    ensures keys_wf(ins_all(m, txid, h, outs, n)),
+    decreases n
+{
+    if n > 0 { lemma_ins_all_keys(m, txid, h, outs, n - 1); lemma_key_len(txid, (n - 1) as u32); }
+}
+pub proof fn lemma_keys_wf_run(txs: Seq<TxH>, n: int)
+    requires 0 <= n <= txs.len(),
+    ensures keys_wf(run(txs, n)),
+    decreases n
+{
+    if n > 0 { lemma_keys_wf_run(txs, n - 1); lemma_keys_wf_tx(run(txs, n - 1), txs[n - 1].tx, txs[n - 1].h); }
+}
+
 } // verus!
 fn main() {}
